@@ -483,7 +483,7 @@ bool resolvable(const std::vector<double> &flat, const double *a, const double *
 // ------------------------------------------------------------------ generator
 const char *CLS[] = {"uniform",        "clustered",     "lattice",
                      "perturbed-lattice", "coplanar-cospherical",
-                     "near-walls"};
+                     "near-walls", "needle-cell"};
 
 double gauss() {
   const double u1 = vr::uni(1e-12, 1.), u2 = vr::uni();
@@ -515,7 +515,7 @@ VCase gen_grid(int maxn, bool nondegenerate_only) {
   if (vr::coin(0.5))
     for (int k = 0; k < 3; ++k)
       s[k] = L * (bm == 2 ? vr::logu(0.05, 1.) : vr::dyadic(1. / 16, 1.0625, 4));
-  int cls = vr::weighted({4, 4, 3, 3, 3, 3});
+  int cls = vr::weighted({4, 4, 3, 3, 3, 3, 2});
   if (nondegenerate_only && (cls == 2 || cls == 4))
     cls = vr::coin() ? 0 : 3;
   std::vector<std::vector<double>> p; // unit coordinates in (0,1)
@@ -645,6 +645,58 @@ VCase gen_grid(int maxn, bool nondegenerate_only) {
       }
     for (int i = 0; i < ng; ++i)
       p.push_back({vr::uni(0.01, 0.99), vr::uni(0.01, 0.99), vr::uni(0.01, 0.99)});
+    break;
+  }
+  case 6: {
+    // One needle-shaped cell: generator P squeezed by three close neighbours
+    // (distance a) whose bisector planes open under a small angle, closed at
+    // the back; its tip lies a distance R0 >> a away, where a generator Q
+    // just beyond the tip (and nothing else inside the tip's circumsphere)
+    // decides the last vertex.  The rest of the box is a jittered lattice of
+    // well separated points.  Whether that far vertex is found / cut depends
+    // on the termination criteria of the neighbour searches of both
+    // constructions.  Everything is well separated (>= 0.03 sides).
+    const int ax = (int)vr::irange(0, 2), sg = vr::coin() ? 1 : -1;
+    const double a = vr::uni(0.04, 0.07), R0 = vr::uni(0.22, 0.32);
+    const double sina = 0.5 * a / R0, cosa = std::sqrt(1. - sina * sina);
+    double P[3] = {vr::uni(0.3, 0.7), vr::uni(0.3, 0.7), vr::uni(0.3, 0.7)};
+    P[ax] = sg > 0 ? vr::uni(0.15, 0.3) : vr::uni(0.7, 0.85);
+    const int b1 = (ax + 1) % 3, b2 = (ax + 2) % 3;
+    const double ph0 = vr::uni(0., 6.283185307179586);
+    auto mk = [&](double da, double d1, double d2) {
+      std::vector<double> q(3);
+      q[ax] = P[ax] + sg * da;
+      q[b1] = P[b1] + d1;
+      q[b2] = P[b2] + d2;
+      return q;
+    };
+    for (int i = 0; i < 3; ++i) {
+      const double phi = ph0 + 2.0943951023931953 * i;
+      p.push_back(mk(a * sina, a * cosa * std::cos(phi), a * cosa * std::sin(phi)));
+    }
+    p.push_back({P[0], P[1], P[2]});
+    p.push_back(mk(-a, 0., 0.));
+    p.push_back(mk(R0 + vr::uni(0.04, 0.1), 0., 0.)); // Q beyond the tip
+    const int mm = (int)vr::irange(4, 5);
+    const double jit = 0.16 / mm;
+    for (int ix = 0; ix < mm; ++ix)
+      for (int iy = 0; iy < mm; ++iy)
+        for (int iz = 0; iz < mm; ++iz) {
+          const double q[3] = {(ix + 0.5) / mm + jit * vr::uni(-0.5, 0.5),
+                               (iy + 0.5) / mm + jit * vr::uni(-0.5, 0.5),
+                               (iz + 0.5) / mm + jit * vr::uni(-0.5, 0.5)};
+          const double along = sg * (q[ax] - P[ax]);
+          const double d1 = q[b1] - P[b1], d2 = q[b2] - P[b2];
+          const double rad = std::sqrt(d1 * d1 + d2 * d2);
+          const bool near_needle = along > -0.12 && along < R0 + 0.05 && rad < 0.15;
+          const double t = along - R0;
+          const bool near_tip = std::sqrt(t * t + rad * rad) < R0 + 0.04;
+          if (!near_needle && !near_tip)
+            p.push_back({q[0], q[1], q[2]});
+        }
+    for (auto &q : p)
+      for (int k = 0; k < 3; ++k)
+        q[k] = clampu(q[k] + 1e-3 * vr::uni(-1., 1.));
     break;
   }
   default: {
